@@ -112,6 +112,55 @@ example :
       ∧ s.tasks.map (·.pc) = [.done, .holding 0, .failed .closedErr, .failed .cancelled] := by
   decide +kernel
 
+/-
+**no_forgotten_waiter** (full statement, NOT proved):
+
+  theorem no_forgotten_waiter (limit lph) (keys) (ls) (t) :
+      let s := run Fixes.all (init limit lph keys) ls
+      s.ready = [] → t ∈ s.waitq → futOf s t = .pending → hasCap s (keyOf s t) = false
+
+i.e. in every reachable quiescent state no live waiter has capacity for its key.  It is false for
+`Fixes.none` (`f8_lost_wakeup_unfixed`, `race_lost_wakeup_unfixed` below).  For `Fixes.all` it needs a counting
+invariant (per key: free slots usable by queued waiters ≤ woken waiters that have not run yet) which was not
+completed in the time available.  What is proved instead is the wake-up step itself, for *every* state:
+`release_waiter_wakes` / `no_forgotten_waiter_partial`.  Missing: the induction that a woken waiter either
+takes the slot or (repairs f8, race) passes the wake-up on, so that the wake-ups never run out while an
+eligible waiter exists.  That part is covered only by trace conformance and by the exhaustive exploration of
+the real (repaired) connector for N ≤ 3 tasks plus sampled larger runs, which never reach such a state.
+-/
+
+/-- **the wake-up step** (`_release_waiter`), for every state whatsoever and every shuffle result: if some queued
+waiter `t` is live (its future is pending), its key is one of the dict keys of `_waiters`, and there is capacity
+for its key, then `_release_waiter` wakes exactly one waiter `u` — `u` was queued, live, has capacity for its own
+key; its future is now set and its wake-up is appended to the loop's ready queue. -/
+theorem release_waiter_wakes (s : St) (t : Tid)
+    (hk : keyOf s t ∈ s.wkeys) (hcap : hasCap s (keyOf s t) = true) (hw : t ∈ s.waitq) (hf : futOf s t = .pending) :
+    ∃ u, u ∈ s.waitq ∧ futOf s u = .pending ∧ hasCap s (keyOf s u) = true
+      ∧ (releaseWaiter s).ready = s.ready ++ [u] ∧ futOf (releaseWaiter s) u = .woken :=
+  releaseWaiterKeys_wakes _ s t (order_mem hk) hcap hw hf
+
+/-- **no_forgotten_waiter_partial.** Whenever a slot is given back on an open connector (`_release_acquired`: a
+connection is released or closed, an attempt fails, is cancelled or times out) and afterwards some queued live
+waiter has capacity for its key, a queued live waiter with capacity is woken in that very step.
+(Hypothesis `hk`: the waiter's key is a key of the `_waiters` dict — true in reachable states, shown by the
+`wq=` column of the trace conformance, not proved here.) -/
+theorem no_forgotten_waiter_partial (s : St) (k : Key) (sl : Slot) (t : Tid) (hopen : s.closed = false)
+    (hk : keyOf s t ∈ s.wkeys) (hw : t ∈ s.waitq) (hf : futOf s t = .pending)
+    (hcap : hasCap (dropSlot s k sl) (keyOf s t) = true) :
+    ∃ u, u ∈ s.waitq ∧ futOf s u = .pending ∧ hasCap (dropSlot s k sl) (keyOf s u) = true
+      ∧ (releaseAcquired s k sl).ready = s.ready ++ [u] ∧ futOf (releaseAcquired s k sl) u = .woken := by
+  rw [releaseAcquired_eq]; simp only [hopen, Bool.false_eq_true, if_false]
+  exact release_waiter_wakes (dropSlot s k sl) t hk hcap hw hf
+
+/-- the hypotheses are satisfiable: `limit = 1`, task 0 holds the slot, task 1 is queued; giving the slot back
+wakes task 1 -/
+example :
+    let s := run Fixes.all (init 1 0 [0, 0]) [.spawn 0, .tick, .createDone 0 true, .tick, .spawn 1, .tick]
+    s.closed = false ∧ keyOf s 1 ∈ s.wkeys ∧ 1 ∈ s.waitq ∧ futOf s 1 = .pending
+      ∧ hasCap (dropSlot s 0 (.conn 0)) (keyOf s 1) = true
+      ∧ (releaseAcquired s 0 (.conn 0)).ready = [1] := by
+  decide +kernel
+
 /-! ## the code as it is (`Fixes.none`): kernel-checked counterexamples -/
 
 /-- F7 on the model of the code as it is: `limit = 1`, a pooled connection for host 0, a request in
